@@ -31,11 +31,11 @@ Local Open Scope nat_scope.
 Definition C01_full_statement : Prop :=
   forall (dims : list (name * pos)) (p : program) (fuel : nat),
     let c := resolve (code (gen_program dims p)) in
-    let st := mk_state (map (fun d => (fst d, default_of (snd (fst d)))) dims) dev0 in
+    let st := mk_state (map (fun d => (fst d, default_of (snd (fst d)))) dims) io0 in
     match exec_program num_text is_negative fuel p st with
-    | Done st' => exists n s', run num_text is_negative n c m0 = MHalted s' /\ mvars s' = vars st' /\ mscreen s' = screen st'
-    | Failed x q st' => exists n s', run num_text is_negative n c m0 = MError x q s' /\ mscreen s' = screen st'
-    | StepZero q st' => exists n s', run num_text is_negative n c m0 = MStepZero q s' /\ mscreen s' = screen st'
+    | Done st' => exists n s', run num_text is_negative n c m0 = MHalted s' /\ mvars s' = vars st' /\ of_mio (mscreen s') = screen st'
+    | Failed x q st' => exists n s', run num_text is_negative n c m0 = MError x q s' /\ of_mio (mscreen s') = screen st'
+    | StepZero q st' => exists n s', run num_text is_negative n c m0 = MStepZero q s' /\ of_mio (mscreen s') = screen st'
     | OutOfFuel => True
     end.
 
@@ -68,7 +68,7 @@ Theorem C01_statement_straightline : forall f s code pc0 r t vs ps st,
       exists a b, stepn num_text is_negative (length (simple_code s)) code (boundary pc0 r t vs ps st)
         = MRunning (boundary (pc0 + length (simple_code s)) (mk_regs a b (rc r) (rd r)) t vs ps st')
   | Failed x q st' =>
-      exists k s', stepn num_text is_negative k code (boundary pc0 r t vs ps st) = MError x q s' /\ mscreen s' = screen st'
+      exists k s', stepn num_text is_negative k code (boundary pc0 r t vs ps st) = MError x q s' /\ of_mio (mscreen s') = screen st'
   | _ => False
   end.
 Proof. exact (simple_stmt_ok num_text is_negative). Qed.
@@ -78,8 +78,8 @@ Theorem C01_program_straightline : forall f p,
   forallb is_simple p = true -> Forall typed_simple p ->
   let c := resolve (code (gen_program [] p)) in
   match exec_program num_text is_negative (S f) p st0 with
-  | Done st' => exists n s', (forall m, n <= m -> run num_text is_negative m c m0 = MHalted s') /\ mvars s' = vars st' /\ mscreen s' = screen st'
-  | Failed x q st' => exists n s', (forall m, n <= m -> run num_text is_negative m c m0 = MError x q s') /\ mscreen s' = screen st'
+  | Done st' => exists n s', (forall m, n <= m -> run num_text is_negative m c m0 = MHalted s') /\ mvars s' = vars st' /\ of_mio (mscreen s') = screen st'
+  | Failed x q st' => exists n s', (forall m, n <= m -> run num_text is_negative m c m0 = MError x q s') /\ of_mio (mscreen s') = screen st'
   | _ => False
   end.
 Proof. exact (straightline_program_ok num_text is_negative). Qed.
@@ -93,11 +93,11 @@ Proof. exact (check_stmt_sound num_text is_negative). Qed.
 (** whole programs: any instruction list accepted by the validator implements the program *)
 Theorem C01_validated_program : forall k dims p code, check_program k dims p code = true ->
   forall fuel,
-  match exec_program num_text is_negative fuel p (mk_state (init_env dims) dev0) with
+  match exec_program num_text is_negative fuel p (mk_state (init_env dims) io0) with
   | Done st' => exists n s', (forall m, n <= m -> run num_text is_negative m code m0 = MHalted s') /\
-                             mvars s' = vars st' /\ mscreen s' = screen st'
-  | Failed x q st' => exists n s', (forall m, n <= m -> run num_text is_negative m code m0 = MError x q s') /\ mscreen s' = screen st'
-  | StepZero q st' => exists n s', (forall m, n <= m -> run num_text is_negative m code m0 = MStepZero q s') /\ mscreen s' = screen st'
+                             mvars s' = vars st' /\ of_mio (mscreen s') = screen st'
+  | Failed x q st' => exists n s', (forall m, n <= m -> run num_text is_negative m code m0 = MError x q s') /\ of_mio (mscreen s') = screen st'
+  | StepZero q st' => exists n s', (forall m, n <= m -> run num_text is_negative m code m0 = MStepZero q s') /\ of_mio (mscreen s') = screen st'
   | OutOfFuel => True
   end.
 Proof. exact (check_program_sound num_text is_negative). Qed.
@@ -120,8 +120,8 @@ Definition ex_prog : program :=
 Definition ex_out : list Z := [32; 49; 32; 13; 10; 120; 13; 10; 32; 51; 32; 13; 10]%Z.
 
 Example C01_example_nested :
-  (match exec_program num_text is_negative 100 ex_prog st0 with Done s => Some (out (screen s)) | _ => None end) = Some ex_out /\
-  (match run num_text is_negative 1000 (resolve (code (gen_program [] ex_prog))) m0 with MHalted s => Some (out (mscreen s)) | _ => None end) = Some ex_out.
+  (match exec_program num_text is_negative 100 ex_prog st0 with Done s => Some (out (scr (screen s))) | _ => None end) = Some ex_out /\
+  (match run num_text is_negative 1000 (resolve (code (gen_program [] ex_prog))) m0 with MHalted s => Some (out (mscr (mscreen s))) | _ => None end) = Some ex_out.
 Proof. vm_compute. split; reflexivity. Qed.
 
 Example C01_example_straightline :
